@@ -623,6 +623,10 @@ func (e *eng) exec(st *jstep) (crashed *eng) {
 			}
 		}
 	case "delete":
+		if e.phase >= 2 {
+			st.Err = "delete while the parked snapshot commit holds Engine.mu: would block until the commit ends (not supported)"
+			return
+		}
 		var keys [][]byte
 		for _, s := range st.Series {
 			keys = append(keys, seriesKey(s))
@@ -876,12 +880,14 @@ func caseTerm(c *jcase) string {
 	return vh.List(xs)
 }
 
-// holeSt follows the torn-tail hole through a history (inputs only, no observations):
-// hole: the open WAL segment has a hole; ghost: acknowledged operations are unreachable for
-// replay (behind the hole, or in a snapshot not yet committed through WAL.Remove);
-// sticky: a delete went behind a hole (the snapshot may then be empty, nothing to wait for);
-// shape: a crash observation (crash, image, torn images, branch) was taken while ghost —
-// the shape of known finding torn-wal-tail-hole-loses-later-writes.
+// holeSt recognises, from the inputs only, the history shape of the REPAIRED finding
+// torn-wal-tail-hole-loses-later-writes (before repo commit dc4e263207 WAL.Open kept the
+// pre-truncation offset and appends after a torn-tail restart sat behind a hole of zero bytes):
+// hole: a torn-tail restart happened and the segment was not closed since; ghost: operations
+// were acknowledged since then and are not yet committed through WAL.Remove; sticky: one of them
+// was a delete; shape: a crash observation (crash, image, torn images, branch) was taken while
+// ghost.  Used to steer generation (kind=torn aims at the shape) and for the distribution
+// counts only — nothing is tolerated for this shape any more.
 type holeSt struct{ hole, ghost, sticky, shape bool }
 
 func (h *holeSt) apply(st *jstep) {
@@ -981,10 +987,9 @@ func runCase(w *vh.W, c *jcase) {
 	}
 	os.RemoveAll(e.root)
 	sig := map[string]string{"f1": "delete-during-pending-snapshot", "f15": "snapshot-retry-drops-wal-of-later-writes"}[c.Kind]
-	if sig == "" && tornShape(c) {
-		sig = "torn-wal-tail-hole-loses-later-writes"
-	}
-	w.Count("torn_shape", fmt.Sprint(sig == "torn-wal-tail-hole-loses-later-writes"))
+	// the torn-tail-hole shape (finding repaired by repo commit dc4e263207) is still generated and
+	// counted, but no longer tolerated: such a case must satisfy the oracle like any other
+	w.Count("torn_shape", fmt.Sprint(tornShape(c)))
 	writes, images := 0, 0
 	for _, st := range c.Steps {
 		w.Count("op", st.Op)
@@ -1017,7 +1022,7 @@ func gen(w *vh.W) jcase {
 	case x == 1:
 		kind = "f15"
 	case x == 2 || x == 3:
-		kind = "torn" // may run into the torn-tail hole finding; safe never does
+		kind = "torn" // aims at the shape of the repaired torn-tail hole finding; safe avoids it
 	}
 	c := jcase{Kind: kind}
 	var hs holeSt
@@ -1033,8 +1038,8 @@ func gen(w *vh.W) jcase {
 		}
 		return int64(r.IntN(8))
 	}
-	// kind=safe never takes a crash observation while acknowledged operations are unreachable
-	// behind a torn-tail hole (hypothesis (c) of the proved theorem); returns false if refused
+	// kind=safe stays off the shape of the repaired torn-tail hole finding (kind=torn covers it, with
+	// the same oracle); returns false if refused
 	add := func(st jstep) bool {
 		t := hs
 		t.apply(&st)
@@ -1084,6 +1089,11 @@ func gen(w *vh.W) jcase {
 		case x < 44:
 			// deletes only while no snapshot commit is in flight (safe); f1: also in flight
 			if phase != 0 && kind != "f1" {
+				continue
+			}
+			if phase >= 2 {
+				// parked after Replace / ClearSnapshot the commit holds Engine.mu.RLock and a delete
+				// (disableLevelCompactions: mu.Lock) simply waits for it: not a state to observe
 				continue
 			}
 			if failedPending && kind != "f1" {
@@ -1187,8 +1197,8 @@ func corpus() []jcase {
 		{Kind: "f15", Steps: []jstep{wr(jpoint{0, 0, 1, 10}), {Op: "snapbegin"}, {Op: "snapfail"}, wr(jpoint{0, 0, 2, 20}), {Op: "snap"}, img}},
 		// F1 across restart: delete inside a pending snapshot is lost after a crash
 		{Kind: "f1", Steps: []jstep{wr(jpoint{0, 0, 5, 7}), {Op: "snapbegin"}, {Op: "delete", Series: []int{0}, Lo: 0, Hi: 10}, {Op: "commitreplace"}, {Op: "commitclear"}, {Op: "walremove"}, img}},
-		// torn-tail hole (findings.d/demos/C02-baseline): write A; write B in flight, torn, crash; write C
-		// acknowledged; crash -> C lost.  The hole survives that crash: D is lost by the next one as well.
+		// shape of the repaired torn-tail hole (findings.d/demos/C02-baseline): write A; write B in flight, torn,
+		// crash; write C acknowledged; crash -> C must be there; D after the next restart as well.
 		{Kind: "torn", Steps: []jstep{wr(jpoint{0, 0, 1, 10}), wc(1, jpoint{0, 0, 2, 20}), img, wr(jpoint{0, 0, 3, 30}), img, {Op: "crash"}, img,
 			wr(jpoint{1, 1, 4, 40}), {Op: "crash"}, img}},
 		// the same as side branches of one running engine, cut at the first byte / inside the header / at the
@@ -1197,12 +1207,12 @@ func corpus() []jcase {
 			br(true, 0, wr(jpoint{0, 0, 3, 30})), br(true, 1, wr(jpoint{0, 0, 3, 30})), br(true, 2, wr(jpoint{0, 0, 3, 30})),
 			br(true, 3, wr(jpoint{0, 0, 3, 30})), br(true, 4, wr(jpoint{0, 0, 3, 30}), wr(jpoint{1, 0, 3, 31})),
 			br(false, 0, wr(jpoint{0, 0, 3, 30})), br(true, 0), img}},
-		// an acknowledged delete behind the hole: the deleted point is back after the second restart
+		// an acknowledged delete after a torn-tail restart must survive the second restart
 		{Kind: "torn", Steps: []jstep{wr(jpoint{0, 0, 1, 10}), wc(4, jpoint{0, 0, 2, 20}), {Op: "delete", Series: []int{0}, Lo: 0, Hi: 5}, img}},
-		// the hole in a fresh segment (nothing before it), and closed by a snapshot start before the crash
+		// torn tail in a fresh segment (nothing before it), segment closed by a snapshot before the crash
 		{Kind: "torn", Steps: []jstep{wc(2, jpoint{0, 0, 1, 10}), wr(jpoint{0, 0, 2, 20}), img, {Op: "snap"}, img, wr(jpoint{0, 0, 3, 30}), img, {Op: "crash"}, img}},
-		// safe side of the hole: torn crashes in a row, a torn crash followed by a plain crash (hole gone:
-		// nothing was appended), operations behind the hole made durable by a committed snapshot
+		// torn crashes in a row, a torn crash followed by a plain crash, operations after a torn-tail
+		// restart committed by a snapshot, images that live on
 		{Kind: "safe", Steps: []jstep{wr(jpoint{0, 0, 1, 10}), wc(1, jpoint{0, 0, 2, 20}), img, wc(3, jpoint{0, 0, 2, 21}), img, {Op: "crash"}, wr(jpoint{0, 0, 3, 30}), img,
 			wc(5, jpoint{1, 0, 1, 1}), wr(jpoint{0, 0, 4, 40}), wr(jpoint{1, 1, 4, 41}), {Op: "snapbegin"}, wr(jpoint{0, 1, 5, 50}), {Op: "commitreplace"}, {Op: "commitclear"}, {Op: "walremove"}, img, wr(jpoint{1, 1, 6, 61}),
 			br(true, 5, wr(jpoint{0, 0, 6, 60}), jstep{Op: "snap"}, wr(jpoint{0, 0, 7, 70})), br(false, 0, wr(jpoint{0, 0, 6, 60}), jstep{Op: "delete", Series: []int{0}, Lo: 0, Hi: 3}),
@@ -1215,7 +1225,7 @@ func main() {
 	openShared()
 	defer closeShared()
 	w := vh.New("C02", "From Verif Require Import Base.Prelude Model.C01 Model.C02.", "dcase", "Model.C02.check")
-	w.Rule = "random histories (8-22 steps) on a real tsm1.Engine over 2 series x 2 fields x timestamps {0..7, MinNanoTime(+1), MaxNanoTime(-1)}: writes, series range deletes, atomic snapshots, snapshots parked at the hook points after Cache.Snapshot / after Replace / after ClearSnapshot / before completion, failed snapshots (f15/f1 kinds only), CompactFull/Fast+Replace, range reads, crash IMAGES (directory copy reopened by a second engine, all keys read, a write accepted) at any point incl. between commit sub-steps, TORN images cutting the last WAL record at every byte offset (1 in 6 torn writes, records <= 64 bytes) or at 5 offsets (0, inside the header, 5, inside the payload, last byte), and real crash+continue. Images that LIVE ON: (i) torn_crash = an in-flight write whose WAL record is cut after n>=1 bytes (first byte / inside the header / exactly the header / first payload byte / all but the last byte / anywhere) and whose image becomes the running engine (DCrashTorn; up to 3 per case together with (ii)); (ii) branch = a plain image, or one with the previous write's record torn, is reopened by a second engine that performs 0-3 further acknowledged writes / deletes / atomic snapshots, is crashed again (second directory copy) and a third engine reads every key (DBranch). kind=safe: deletes/snapshot starts only while no commit is in flight and no crash observation while acknowledged operations are unreachable behind a torn-tail hole (the proved theorem's hypotheses); kind=f1 / f15 / torn: the three known-finding shapes (torn: decided from the steps by holeSt — a crash observation while operations acknowledged after a torn-tail crash are still behind the hole / not yet committed through WAL.Remove). Non-trivial: >=2 writes and >=1 crash image."
+	w.Rule = "random histories (8-22 steps) on a real tsm1.Engine over 2 series x 2 fields x timestamps {0..7, MinNanoTime(+1), MaxNanoTime(-1)}: writes, series range deletes, atomic snapshots, snapshots parked at the hook points after Cache.Snapshot / after Replace / after ClearSnapshot / before completion, failed snapshots (f15/f1 kinds only), CompactFull/Fast+Replace, range reads, crash IMAGES (directory copy reopened by a second engine, all keys read, a write accepted) at any point incl. between commit sub-steps, TORN images cutting the last WAL record at every byte offset (1 in 6 torn writes, records <= 64 bytes) or at 5 offsets (0, inside the header, 5, inside the payload, last byte), and real crash+continue. Images that LIVE ON: (i) torn_crash = an in-flight write whose WAL record is cut after n>=1 bytes (first byte / inside the header / exactly the header / first payload byte / all but the last byte / anywhere) and whose image becomes the running engine (DCrashTorn; up to 3 per case together with (ii)); (ii) branch = a plain image, or one with the previous write's record torn, is reopened by a second engine that performs 0-3 further acknowledged writes / deletes / atomic snapshots, is crashed again (second directory copy) and a third engine reads every key (DBranch). kind=safe and kind=torn: deletes/snapshot starts only while no commit is in flight (the proved theorem's hypothesis); torn additionally aims at the shape of the repaired torn-tail-hole defect (a crash observation while operations acknowledged after a torn-tail restart are not yet committed through WAL.Remove; recognised from the steps by holeSt, counted as torn_shape, NOT tolerated); kind=f1 / f15: the two known-finding shapes. Non-trivial: >=2 writes and >=1 crash image."
 	var rc jcase
 	if w.ReplayCase(&rc) {
 		runCase(w, &rc)
